@@ -1045,13 +1045,17 @@ pub(super) fn poll_recv(
         }
         let local = bound_endpoint(st);
         let tcb = st.tcb.as_mut().unwrap();
+        let was_closed = advertised_window(recv_cap, tcb.recv_buf.len()) == 0;
         let n = tcb.recv_buf.len().min(buf.len());
         let drained = tcb.recv_buf.split_to(n);
         buf[..n].copy_from_slice(&drained);
         // Window-update trigger: if we freed ≥ half the recv cap,
         // advertise. Crude SWS avoidance; refine alongside real flow
-        // control.
-        let should_update = n >= recv_cap / 2;
+        // control. A window that was advertised as zero must be
+        // reopened by the first read that frees any space, however
+        // small: the peer has nothing in flight that would elicit an
+        // ACK, so without this update both sides wait forever.
+        let should_update = n >= recv_cap / 2 || (was_closed && n > 0);
         (n, should_update, local, peer)
     };
 
